@@ -111,3 +111,23 @@ package graph
 //@     invariant 0 <= i && i <= size && size == len(t.graph) && sameslice(t.graph, old(t.graph)) && fresh(t.index) && fresh(t.lowLink) && fresh(t.onStack)
 //@     invariant wfTarjan(t) && wfGraph(t) && wfStack(t) && wfIndex(t) && wfOn(t)
 //@     invariant forall u in 0..i :: t.index[u] != -1
+
+// Graph: the adjacency lists of the matrix. Proved: no index leaves its slice (for a non-empty matrix
+// whose bits beyond n*n are clear - NewMatrix and AddEdge keep that), one list per vertex, and every
+// listed b of row a is a vertex with an edge a -> b. Not proved: that every edge is listed (the
+// nonlinear a*n+b under the quantifiers of the completeness invariant defeats the solvers).
+//@ func Matrix.Graph
+//@   option slice-wf
+//@   requires wfMatrix(m) && m.n > 0 && m.n <= 30000 && len(m.set) <= 33554432 && forall j in m.n*m.n..32*len(m.set) :: !bit(m.set, j)
+//@   modifies reuse[0:cap(reuse)]
+//@   ensures len(result) == m.n
+//@   ensures forall a in 0..m.n :: forall j in 0..len(result[a]) :: 0 <= result[a][j] && result[a][j] < m.n && bit(m.set, a*m.n + result[a][j])
+//@   loop 1:
+//@     invariant forall k in 0..@i :: 0 <= slice[k] && slice[k] < n
+//@     invariant forall k in start..@i :: bit(m.set, index*n + slice[k])
+//@     invariant forall a in 0..index :: forall j in 0..len(ret[a]) :: bit(m.set, a*n + ret[a][j])
+//@     invariant forall k in @i..len(slice) :: slice[k] >= index*n && bit(m.set, slice[k])
+//@     invariant forall p in @i..len(slice) :: forall q in p+1..len(slice) :: slice[p] < slice[q]
+//@     invariant forall a in 0..n :: (a >= index ==> len(ret[a]) == 0) && (len(ret[a]) == 0 || within(ret[a], slice[0:start]))
+//@     invariant 0 <= @i && @i <= len(slice) && 0 <= start && start <= @i && 0 <= index && index < n && n == m.n && len(ret) == n && fresh(ret)
+//@     invariant forall k in @i..len(slice) :: 0 <= slice[k] && slice[k] < n*n
